@@ -88,8 +88,9 @@ class Report:
 
     def check_floors(self):
         from . import AnalysisBroken
-        if self.failed():
-            return          # a genuine violation takes precedence over instance-count floors
+        known_keys = {k["key"] for k in load_known().get("known", []) if k.get("property") == self.prop}
+        if [o for o in self.failed() if o.finding_key(self.prop) not in known_keys]:
+            return          # a genuine (new) violation takes precedence over instance-count floors; a listed known finding does not
         if self.deferred:
             raise AnalysisBroken("; ".join(self.deferred))
         for rule, minimum in self.floors.items():
